@@ -31,6 +31,19 @@ MODEL (Model.v)
   * analyze/process_node/process_graph/collect_ins/walk = analyze_implicit_usage with its graph stack and
     dict (KeyError when the walk reaches a graph that is not a key, i.e. the top graph).
 
+TRANSLATION (second deepening round): generate(ck) regenerates coq/theories/Gen/C18Gen.v on every run from the source
+  with the fail-closed statement translator above (class _Tr): the body of `while value_stack:` and the loop itself
+  (gen_find_body / gen_find_loop), the frontier validation (gen_input_frontier / gen_unspecified),
+  _collect_all_external_values (gen_collect_external) and _collect_implicit_usages (gen_collect_implicit_usages).
+  C18/GenEquiv.v proves them equal to the hand model (C18_translated_walk_body, C18_translated_walk,
+  C18_translated_frontier, C18_translated_captures, C18_translated_implicit_usages), Python set order as the
+  quantified shuffle / any permutation for sorted(). A source edit changes the generated text: the translator rejects
+  it ("translate:C18Gen") or an equivalence proof stops compiling ("proof:...GenEquiv.v..."), and the correspondence /
+  oracle then look for the input. Hand-modelled and pinned by AST digest (PINS; fail closed as "pin:..."): the
+  initialisation / raise / sort-by-node-index / return of _find_subgraph_bounded_by_values, extract, _process_node,
+  analyze_implicit_usage. Seen on the seeded changes: r5m2, r4m3 -> translator rejects; r5m1 -> GenEquiv proof
+  breaks; r4m1 -> pin; each still with a concrete input from the oracle.
+
 THEOREMS (all closed under the global context, no axioms)
   C18_walk_terminates   fuel never runs out; outcomes are Ok | ValueError | KeyError.
   C18_exact             returned nodes = {producers of needed non-input values} (both inclusions), as a
@@ -1750,6 +1763,8 @@ def run(ck) -> None:
              "analyze_implicit_usage, Coq literal printer, brute-force oracle)",
              "hand-written model coq/theories/C18/Model.v, tied by differential execution only (the model's value "
              "table is derived from the structure inside Coq; the implementation's accessors are pinned against it)",
+             "statement translator in harness/props/c18.py (class _Tr; sets as duplicate-free lists, stack top at the "
+             "head) — its output is proved equal to the hand model in C18/GenEquiv.v on every run",
              "modelled not verified: list.sort by node index modelled as a filter of the original node list; "
              "Python set iteration order (theorems hold for every order); the value-copying part of the cloner "
              "(only its definedness checks are modelled); onnx.reference.ReferenceEvaluator (oracle only)")
@@ -1772,7 +1787,7 @@ def run(ck) -> None:
         groups.append(explore_graph(ck, entry["spec"], entry["cuts"]))
         ck.hist("inputs", "corpus")
     # 2. generated graphs, 3. model vs implementation inside Coq — in batches (bounded memory)
-    n_graphs = 120 if not ck.thorough else 2500
+    n_graphs = 100 if not ck.thorough else 2500
     mism: list[dict] = []
     failures: list[tuple[dict, dict]] = []
     validated = 0
@@ -1812,7 +1827,7 @@ def run(ck) -> None:
     flush(groups, "cases_last")
     groups = []
     # histories: extract -> edit a nested body's captures on the same objects -> extract again
-    n_hist = 36 if not ck.thorough else 700
+    n_hist = 30 if not ck.thorough else 700
     for i in range(n_hist):
         spec = gen_spec(ck.rng, "numeric" if i % 2 == 0 else "structural", ck.rng.choice([1, 1, 2]))
         gs = explore_history(ck, spec, ck.rng)
